@@ -22,7 +22,11 @@ CHOICES = [("A", "default"), ("B", "default"), ("Bp", "default"), ("A", "novec")
            # fields without a struct code: generated code goes through the class's field list
            ("L", "default"), ("Lp", "default"),
            # symmetric width swaps (texts that differ only by characters trading places)
-           ("P", "default"), ("Pp", "default")]
+           ("P", "default"), ("Pp", "default"),
+           # the same field lines with another value behind a named default; names differing only outside ASCII
+           ("D", "default"), ("Dp", "default"), ("N", "default"), ("Np", "default")]
+CORE = CHOICES[:6]
+FAMILIES = [CHOICES[6:8], CHOICES[8:10], CHOICES[10:12], CHOICES[12:14], CHOICES[14:16]]
 
 
 def mc_cfg(bytecode, procs):
@@ -70,7 +74,12 @@ def run(tier, seed):
     refs = ch.reference_behaviours(common.REPO)
     sources = cr.Sources(refs)
     rnd = random.Random(seed)
-    seqs = [list(s) for s in itertools.product(CHOICES, repeat=2)]
+    # all pairs of the core choices; within each family of look-alikes every ordered pair, and each member against A
+    seqs = [list(s) for s in itertools.product(CORE, repeat=2)]
+    for fam in FAMILIES:
+        seqs += [list(s) for s in itertools.product(fam, repeat=2)] + [[CHOICES[0], x] for x in fam] + [[x, CHOICES[0]] for x in fam]
+    if not quick:
+        seqs = [list(s) for s in itertools.product(CHOICES, repeat=2)]
     triples = [list(s) for s in itertools.product(CHOICES, repeat=3)]
     rnd.shuffle(triples)
     seqs += triples[: (40 if quick else len(triples))]
@@ -101,6 +110,25 @@ def run(tier, seed):
                     elif len(v.cov["samples"]) < 3:
                         v.sample({"direction": "real processes", "definitions": seq, "bytecode": bytecode, "same_second": same_second,
                                   "one_process": one_process, "initial_cache": init, "outcomes": outs})
+    # two processes taking turns: P defines D1; Q defines D2 (the cache file now holds D2); P defines D2 (served from the
+    # disk) and then D1 again - whatever P remembers about files it has checked, every definition runs its own code
+    for (d1, d2) in [("A", "B"), ("B", "Bp"), ("P", "Pp"), ("H", "Hp")] + ([] if quick else [("L", "Lp"), ("D", "Dp"), ("N", "Np"), ("Bp", "A")]):
+        for bytecode in (True, False):
+            w = ch.World(refs, bytecode)
+            try:
+                pchild = w.child(d1, "default", more_defs=[(d2, "default"), (d1, "default"), (d2, "default")])
+                pchild.run_one_definition()
+                qchild = w.child(d2, "default")
+                qchild.run_to_end()
+                pchild.run_to_end()
+                outs = list(pchild.outcomes) + [(d2, qchild.outcome)]
+            finally:
+                w.close()
+            n += 1
+            v.count_case(("pingpong", d1, d2, bytecode), nontrivial=True)
+            if [o for _, o in outs] != ["own"] * 5:
+                v.violation("Inv_C15_Own", "process P defines %s, process Q defines %s, then P defines %s, %s, %s (bytecode %s): outcomes %r" % (
+                    d1, d2, d2, d1, d2, "on" if bytecode else "off", outs), {"pair": [d1, d2], "bytecode": bytecode, "outcomes": outs})
     v.cov["traces_validated_against_impl"] += n
     v.cov["definition_sequences_executed"] = n
     # a cached module of ANOTHER declaration that appears while this definition is under way is never used either
